@@ -9,6 +9,8 @@ impl Limb {
     /// Panics if `shift` overflows `Limb::BITS`.
     #[inline(always)]
     pub const fn shl(self, shift: u32) -> Self {
+        // explicit check: without overflow checks (release builds) `self.0 << shift` silently masks the shift amount
+        assert!(shift < Self::BITS, "`shift` within the bit size of the limb");
         Limb(self.0 << shift)
     }
 
